@@ -76,6 +76,13 @@ class SeqTimerHandle(events.TimerHandle):
 LATENCIES = (0.0, 0.0005, 0.003, 0.02, 0.15, 0.6, 2.5)
 
 
+import contextvars
+
+# the harness names the party on whose behalf connections are opened (e.g. a subscription's index): the simulated network
+# records it on both transports, so that a connection can be attributed without marking anything the code under test sends
+CONN_TAG: "contextvars.ContextVar" = contextvars.ContextVar("sim_conn_tag", default=None)
+
+
 class MemTransport(transports.Transport):
     def __init__(self, loop: "SimLoop", protocol, net: "SimNet", name: str, conn_id: int):
         super().__init__()
@@ -341,6 +348,7 @@ class SimNet:
         ct = MemTransport(self.loop, cproto, self, "client", cid)
         st = MemTransport(self.loop, sproto, self, "server", cid)
         ct.peer, st.peer = st, ct
+        ct.opened_by = st.opened_by = CONN_TAG.get()       # (who asked for this connection: set by the harness, never by the code under test)
         self.open_transports.update((ct, st))
         self.connections.append((ct, st))
         self._ev(cid, "net", "connect", host, port)
